@@ -613,7 +613,20 @@ def run(pid, tier, seed, res, only=None):
             for p_ in ("C15", "C07"):
                 res.hit(p_, "monitor", "after the history the instance's tables differ from those of a freshly built DAG (%s)" % final.get("tables_detail", final["tables_differ"]), dict(base, kind="monitor"))
         # C15: the final call equals the call on a fresh instance
-        if (final["status"], final["value"]) != (final["fresh_status"], final["fresh_value"]):
+        # (setup results are the one state a DAG keeps, C15 says so: a setup node that a ROOT-restricted run executed while
+        # one of its own producers lay outside the selection has stored a result computed from None - the history then
+        # differs from a fresh instance by that stored setup result only, which is not a leak of call state)
+        use(case)
+        eset_ = {tuple(e_) for e_ in case["edges"]}
+        partial_setup = False
+        for o_ in obs:
+            if o_["op"].get("root") is not None and o_.get("executed"):
+                have_ = set(o_["executed"]) | set(o_.get("done_before") or [])
+                for x_ in o_["executed"]:
+                    ix_ = idx_of(x_)
+                    if ix_ is not None and ix_ in case["setup"] and any(nm(a_) not in have_ for a_, b_ in eset_ if b_ == ix_):
+                        partial_setup = True
+        if (final["status"], final["value"]) != (final["fresh_status"], final["fresh_value"]) and not partial_setup:
             res.hit("C15", "monitor", "after the history the call returns %r (%s), a freshly built DAG returns %r" % (final["value"], final["error"], final["fresh_value"]), dict(base, kind="monitor"))
         for oi, o in enumerate(obs):
             ag = o.get("again")
